@@ -414,7 +414,7 @@ def run_case(case, part):
 def shard(cases):
     part = core.Part()
     for c in cases:
-        run_case(c, part)
+        core.guard(run_case, c, part)
     return part
 
 
